@@ -32,7 +32,10 @@ func runC11(c *Ctx) {
 	objectKeyKindFirst(c, "R14")
 	c.shared("R16", "C13/R6", "a missing statement separator is a syntax error: a statement end is recorded only where a separator, a newline or the closing brace of a block was consumed, and the answer of the statement-end test is never dropped", keyHas("statement-end", "newline-ends", "advance-clears"), c13NewlineFlag)
 	c.shared("R18", "C15/R2", "comparing containers is a fault that contains does not ignore: it returns a verdict only where the comparison of every element looked at succeeded, and the first comparison error is returned at once", keyHas("array.contains", "every-element-compared"), func(s *Ctx) { c15R2(s, nativeMethods(s.P)); c15NestedCalls(s) })
-	c.shared("R20", "C09/R15", "storing a member on a scalar (or a named member on an array) is a fault, never silently ignored: the target cell of such an assignment is not one made for the occasion, into which the store would quietly succeed", func(o Obligation) bool { return strings.Contains(o.Key, "assignment-target-location") && !strings.Contains(o.Key, "ValueObj") }, func(s *Ctx) { assignmentTargetLocation(s, "R15") })
+	c.shared("R21", "C13/R5", "a stray `&` or `|` is a syntax error: the operator tokens are exactly the documented spellings, a single `&` / `|` is not one of them and falls through to the illegal-character error", keyHas("spelling"), c13Operators)
+	c.shared("R20", "C09/R15", "storing a member on a scalar (or a named member on an array) is a fault, never silently ignored: the target cell of such an assignment is not one made for the occasion, into which the store would quietly succeed", func(o Obligation) bool {
+		return strings.Contains(o.Key, "assignment-target-location") && !strings.Contains(o.Key, "ValueObj")
+	}, func(s *Ctx) { assignmentTargetLocation(s, "R15") })
 	c.shared("R19", "C09/R3", "storing a member on null is a fault: a copied null is a plain null — it does not keep the link to the object it was read from, through which the store would quietly succeed", keyHas("copy ValueNil"), c09R3)
 	c.shared("R17", "C05/R2", "comparing containers is a fault in every position: each comparison operator's result comes from Compare (which rejects containers), not from a shortcut that bypasses it for some operands", ruleIs("R2"), runC05)
 	c.shared("R15", "C13/R4", "an illegal character anywhere in the program is a syntax error: between tokens the lexer skips exactly ' ', '\\r', '\\t' and comments, every other byte reaches Next and is rejected there", keyHas("blank-class", "comment-stops"), c13Blanks)
